@@ -221,6 +221,7 @@ func (s *Sim) stepMkBuiltin(st Step) bool {
 		for _, ct := range created.Spec.VolumeClaimTemplates {
 			pvc := ct.DeepCopy()
 			pvc.Name = fmt.Sprintf("%s-%s-%d", ct.Name, c.Name, ord)
+			pvc.Namespace = NS
 			stCreate(s.Store, KPVC, NS, pvc)
 		}
 	}
